@@ -10,7 +10,9 @@ for d in sorted(glob.glob(V + "/seeded/*/")):
     first = "caught" if m.get("caught_by_own_property_check") else "missed"
     now = m.get("caught_by_own_property_check_now")
     now = "caught" if now or (now is None and first == "caught") else ("n/a" if now is None else "MISSED")
-    rows.append("| %s | %s | %s | %s | %s | %s |" % (m["id"], f, needs[:260], first, now, (m.get("strengthening") or "").replace("|", "/")[:260]))
+    if m.get("superseded"):
+        now = "harmless now"  # a later repair of /repo made the change harmless; its own demo passes with it applied
+    rows.append("| %s | %s | %s | %s | %s | %s |" % (m["id"], f, needs[:260], first, now, ((m.get("strengthening") or "") + (" — " + m["superseded"] if m.get("superseded") else "")).replace("|", "/")[:330]))
 table = "| id | file changed | needs, to manifest | at intake | now | what was strengthened after a miss |\n|----|--------------|--------------------|-----------|-----|-----------------------|\n" + "\n".join(rows) + "\n"
 s = open(V + "/DESIGN.md").read()
 a, b = "<!-- seeded-table:begin -->\n", "<!-- seeded-table:end -->\n"
